@@ -1,3 +1,228 @@
-/-! Property C19 — theorems (statements live here, helper lemmas in Faithful/Lib) -/
+import Faithful.Lib.StreamProofs
+import Faithful.Generated.Consts
+/-!
+# Property C19 — streaming a slot range returns exactly the archived items matching the filter
+
+Model: `Faithful/Lib/Stream.lean` (the repaired control flow of grpc-server.go: fixes C19-1 … C19-6), executed by
+`Driver/C19.lean` against the real `StreamBlocks` / `StreamTransactions` on every run.  All theorems are about the
+definitions the driver executes, with the constants of the tree (`Generated.Consts`).
+
+* `streamBlocks_spec`, `streamTx_spec`, `streamTx_spec_noinclude`, `gsfa_irrelevant_noinclude`: full strength.
+* `streamTx_spec_partial`, `gsfa_irrelevant_partial`: the index (gsfa) path, under the hypothesis `WindowFits`
+  (no included account has more than `batchSize` = 100 index entries at or after the start of the range in the epochs
+  the query consults).  What is missing: the code asks the address index for at most 100 newest entries per account
+  and never pages (known finding `C19:gsfa-window:GetBeforeUntilSlot(batch=100)`); `window_loses_transactions` shows
+  the hypothesis cannot be dropped.
+* `pinned_…`: the behaviour of the unrepaired tree, refuted on concrete inputs.
+-/
 namespace C19
+open Stream
+
+/-- the constants of the tree: slottools.EpochLen, `batchSize` of processSlotTransactions, maxSlotsToStream -/
+def P : Params := ⟨Generated.epochLen, Generated.streamGsfaBatchSize, Generated.maxSlotsToStream⟩
+
+theorem flatMap_ite_singleton {α : Type} (p : α → Bool) (l : List α) :
+    l.flatMap (fun b => if p b then [b] else []) = l.filter p := by
+  induction l with
+  | nil => rfl
+  | cons x t ih => cases h : p x <;> simp [List.flatMap_cons, h, ih]
+
+theorem blockFilter_iff (f : Option (List Acct)) (b : Block) : blockFilter f b = true ↔ blockWanted f b := by
+  cases f with
+  | none => simp [blockFilter, blockWanted]
+  | some l =>
+    simp only [blockFilter, blockWanted, blockContainsAccounts, Bool.or_eq_true, List.isEmpty_iff, List.any_eq_true,
+      List.contains_iff_mem]
+
+/-- **StreamBlocks**: exactly the archived blocks of the range that the filter wants, in ascending slot order;
+slots without a block are skipped -/
+theorem streamBlocks_spec {es : List Epoch} (h : WF P es) (lo : Nat) (hi : Option Nat) (f : Option (List Acct)) :
+    streamBlocks P es lo hi f = (blocksIn es lo (endSlot P lo hi)).filter (fun b => decide (blockWanted f b)) := by
+  unfold streamBlocks
+  rw [scanRange_spec h, flatMap_ite_singleton]
+  apply List.filter_congr
+  intro b _
+  rw [Bool.eq_iff_iff, blockFilter_iff, decide_eq_true_iff]
+
+/-- the block scan with the property's predicate is the specification -/
+theorem scan_is_spec {es : List Epoch} (h : WF P es) (lo hi : Nat) (f : Option Filter) (p : Tx → Bool)
+    (hp : ∀ t, p t = true ↔ wantTx f t) :
+    scanSlots P es (fun b => b.txs.filter p) lo (nSlots lo hi) = (txsIn es lo hi).filter (fun t => decide (wantTx f t)) := by
+  rw [scanRange_spec h, txsIn, List.filter_flatMap]
+  congr 1
+  funext b
+  apply List.filter_congr
+  intro t _
+  rw [Bool.eq_iff_iff, hp, decide_eq_true_iff]
+
+/-- **StreamTransactions without an address index**: exactly the archived transactions of the range that satisfy
+the filter, in ascending slot and position order -/
+theorem streamTx_spec {es : List Epoch} (h : WF P es) (lo : Nat) (hi : Option Nat) (f : Option Filter) :
+    streamTransactions P es lo hi f false =
+      (txsIn es lo (endSlot P lo hi)).filter (fun t => decide (wantTx f t)) := by
+  unfold streamTransactions streamTransactionsRange gsfaLoaded
+  cases f with
+  | none => exact scan_is_spec h _ _ none _ (sendScan_false_iff none)
+  | some fl =>
+    simp only [Bool.false_and, Bool.not_false, Bool.or_true, if_true]
+    exact scan_is_spec h _ _ (some fl) _ (sendScan_false_iff (some fl))
+
+/-- … and with an address index, for every filter without an include list (those take the block scan too) -/
+theorem streamTx_spec_noinclude {es : List Epoch} (h : WF P es) (lo : Nat) (hi : Option Nat) (f : Option Filter)
+    (hinc : ∀ fl, f = some fl → fl.inc = []) (gsfa : Bool) :
+    streamTransactions P es lo hi f gsfa =
+      (txsIn es lo (endSlot P lo hi)).filter (fun t => decide (wantTx f t)) := by
+  unfold streamTransactions streamTransactionsRange
+  cases f with
+  | none => exact scan_is_spec h _ _ none _ (sendScan_of_no_include _ none hinc)
+  | some fl =>
+    have : fl.inc = [] := hinc fl rfl
+    simp only [this, List.isEmpty_nil, Bool.true_or, if_true]
+    exact scan_is_spec h _ _ (some fl) _ (sendScan_of_no_include _ (some fl) hinc)
+
+/-- **StreamTransactions, any configuration** — partial: the index path needs `WindowFits`.
+Missing for full strength: paging through the address index (the code asks once for `batchSize` entries). -/
+theorem streamTx_spec_partial {es : List Epoch} (h : WF P es) (lo : Nat) (hi : Option Nat) (f : Option Filter) (gsfa : Bool)
+    (hfit : ∀ fl, f = some fl → gsfa = true → WindowFits P es lo (endSlot P lo hi) fl) :
+    streamTransactions P es lo hi f gsfa =
+      (txsIn es lo (endSlot P lo hi)).filter (fun t => decide (wantTx f t)) := by
+  cases gsfa with
+  | false => exact streamTx_spec h lo hi f
+  | true =>
+    cases f with
+    | none => exact streamTx_spec_noinclude h lo hi none (fun _ hh => by cases hh) true
+    | some fl =>
+      by_cases hinc : fl.inc = []
+      · exact streamTx_spec_noinclude h lo hi (some fl) (fun fl' hh => by cases hh; exact hinc) true
+      · unfold streamTransactions streamTransactionsRange
+        have hne : fl.inc.isEmpty = false := by
+          cases hie : fl.inc.isEmpty with
+          | false => rfl
+          | true => exact absurd (List.isEmpty_iff.1 hie) hinc
+        cases hl : gsfaLoaded P es true lo (endSlot P lo hi) with
+        | false =>
+          simp only [hne, Bool.not_false, Bool.or_true, if_true]
+          exact scan_is_spec h _ _ (some fl) _ (sendScan_false_iff (some fl))
+        | true =>
+          simp only [hne, Bool.not_true, Bool.or_false, Bool.false_eq_true, if_false]
+          rw [index_eq_scan h _ _ fl hinc (hfit fl rfl rfl)]
+          exact scan_is_spec h _ _ (some fl) _ (sendScan_false_iff (some fl))
+
+/-- **the address index is irrelevant** for filters without an include list -/
+theorem gsfa_irrelevant_noinclude {es : List Epoch} (h : WF P es) (lo : Nat) (hi : Option Nat) (f : Option Filter)
+    (hinc : ∀ fl, f = some fl → fl.inc = []) :
+    streamTransactions P es lo hi f true = streamTransactions P es lo hi f false := by
+  rw [streamTx_spec_noinclude h lo hi f hinc true, streamTx_spec h]
+
+/-- **the address index is irrelevant** — partial: under `WindowFits` (see `streamTx_spec_partial`) -/
+theorem gsfa_irrelevant_partial {es : List Epoch} (h : WF P es) (lo : Nat) (hi : Option Nat) (f : Option Filter)
+    (hfit : ∀ fl, f = some fl → WindowFits P es lo (endSlot P lo hi) fl) :
+    streamTransactions P es lo hi f true = streamTransactions P es lo hi f false := by
+  rw [streamTx_spec_partial h lo hi f true (fun fl hf _ => hfit fl hf), streamTx_spec h]
+
+/-- the order in which the goroutines of the index path fill the buffer does not matter -/
+theorem flush_order_irrelevant {es : List Epoch} (h : WF P es) (buf buf' : List Tx) (ha : Archived es buf)
+    (hperm : ∀ t, t ∈ buf' ↔ t ∈ buf) (lo hi : Nat) : flush buf' lo hi = flush buf lo hi := by
+  have ha' : Archived es buf' := fun t ht => ha t ((hperm t).1 ht)
+  unfold flush
+  rw [flushSlots_eq_scan h buf ha, flushSlots_eq_scan h buf' ha']
+  apply scanSlots_congr
+  intro s _ _ b _
+  apply List.filter_congr
+  intro t _
+  rw [Bool.eq_iff_iff, decide_eq_true_iff, decide_eq_true_iff]
+  exact hperm t
+
+/-- the filter closure is the property's predicate (scan path) -/
+theorem matchesFilter_is_wantTx (f : Option Filter) (t : Tx) : sendScan false f t = true ↔ wantTx f t :=
+  sendScan_false_iff f t
+
+/-! ## a concrete archive (non-vacuity) -/
+
+/-- two consecutive epochs; slot 432001 is skipped; account 7 is only table-loaded in the first transaction -/
+def exEs : List Epoch :=
+  [ { num := 0, blocks := [ { slot := 431998, txs := [ ⟨431998, 0, [1, 2], [7], false, false⟩, ⟨431998, 1, [2, 3], [], true, false⟩ ] },
+                            { slot := 431999, txs := [ ⟨431999, 0, [3, 7], [], false, true⟩ ] } ] },
+    { num := 1, blocks := [ { slot := 432000, txs := [ ⟨432000, 0, [1, 7], [], false, false⟩ ] },
+                            { slot := 432002, txs := [ ⟨432002, 0, [2], [], true, true⟩, ⟨432002, 1, [7, 1], [], false, false⟩ ] } ] } ]
+
+theorem exEs_wf : WF P exEs := by
+  refine ⟨by decide, by decide, by decide, by decide, by decide, by decide⟩
+
+def exFilter : Filter := { vote := some false, failed := none, inc := [7], exc := [3], req := [1] }
+
+theorem exFilter_fits : WindowFits P exEs 431998 432002 exFilter := by
+  intro a ha
+  simp only [exFilter, List.mem_singleton] at ha
+  subst ha
+  decide
+
+example : streamBlocks P exEs 431998 (some 432002) (some [3]) = [exEs[0].blocks[0], exEs[0].blocks[1]] := by decide
+example : (streamBlocks P exEs 431999 (some 432002) none).map (·.slot) = [431999, 432000, 432002] := by decide
+example : (streamTransactions P exEs 431998 (some 432002) none false).map (fun t => (t.slot, t.pos)) =
+    [(431998, 0), (431998, 1), (431999, 0), (432000, 0), (432002, 0), (432002, 1)] := by decide
+example : (streamTransactions P exEs 431998 (some 432002) (some exFilter) false).map (fun t => (t.slot, t.pos)) =
+    [(431998, 0), (432000, 0), (432002, 1)] := by decide
+/-- the index path is really taken (readers non-empty, include list non-empty) and gives the same answer -/
+example : gsfaLoaded P exEs true 431998 432002 = true ∧
+    streamTransactions P exEs 431998 (some 432002) (some exFilter) true =
+      streamTransactions P exEs 431998 (some 432002) (some exFilter) false := by decide
+example : streamTransactions P exEs 431998 (some 432002) (some exFilter) true =
+    (txsIn exEs 431998 432002).filter (fun t => decide (wantTx (some exFilter) t)) :=
+  streamTx_spec_partial exEs_wf 431998 (some 432002) (some exFilter) true (fun fl hf _ => by cases hf; exact exFilter_fits)
+example : ∃ t, wantTx (some exFilter) t ∧ ∃ t', ¬ wantTx (some exFilter) t' := by
+  refine ⟨⟨431998, 0, [1, 2], [7], false, false⟩, by decide, ⟨431999, 0, [3, 7], [], false, true⟩, by decide⟩
+
+/-! ## the window hypothesis cannot be dropped (known finding) -/
+
+/-- one epoch: a transaction of account 7 in slot 432000, then `batchSize` more in slot 432001 -/
+def busyEs : List Epoch :=
+  [ { num := 1, blocks := [ { slot := 432000, txs := [ ⟨432000, 0, [7], [], false, false⟩ ] },
+                            { slot := 432001, txs := (List.range P.batch).map fun i => ⟨432001, i, [7], [], false, false⟩ } ] } ]
+
+def busyFilter : Filter := { vote := none, failed := none, inc := [7], exc := [], req := [] }
+
+/-- with the address index the stream over slot 432000 is empty, without it it holds the transaction: the
+`batchSize` newest entries of the account all lie behind the range -/
+theorem window_loses_transactions :
+    streamTransactions P busyEs 432000 (some 432000) (some busyFilter) true = [] ∧
+    streamTransactions P busyEs 432000 (some 432000) (some busyFilter) false = [⟨432000, 0, [7], [], false, false⟩] := by
+  decide
+
+/-! ## the pinned tree -/
+
+/-- defect 1 (polarity): with no filter nothing is sent although every transaction is wanted -/
+theorem pinned_polarity_wrong : ∃ f t, sendPinned false f t ≠ .ok (decide (wantTx f t)) :=
+  ⟨none, ⟨1, 0, [], [], false, false⟩, by decide⟩
+
+theorem pinned_nil_filter_sends_nothing (g : Bool) (t : Tx) : sendPinned g none t = .ok false := rfl
+
+/-- defect 1: a filter that excludes vote transactions sends exactly those -/
+theorem pinned_vote_false_sends_votes (g : Bool) (f : Filter) (t : Tx) (hv : f.vote = some false) (ht : t.isVote = true) :
+    sendPinned g (some f) t = .ok true := by
+  simp [sendPinned, filterOutTxnPinned, hv, ht]
+
+/-- defect 3: an absent optional flag is dereferenced -/
+theorem pinned_absent_flag_panics (g : Bool) (f : Filter) (t : Tx) (hv : f.vote = none) : sendPinned g (some f) t = .panic := by
+  simp [sendPinned, filterOutTxnPinned, hv]
+
+/-- defect 4: `failed = false` treats every transaction as failed; combined with the inverted send sites every
+non-vote transaction is sent, failed or not -/
+theorem pinned_failed_false_ignores_status (g : Bool) (f : Filter) (t : Tx) (hv : f.vote = some true) (hf : f.failed = some false) :
+    sendPinned g (some f) t = .ok true := by
+  simp [sendPinned, filterOutTxnPinned, hv, hf]
+
+/-- defect 2: the pinned block scan ends at the first slot without a block -/
+theorem pinned_scan_stops_at_gap :
+    scanSlotsPinned P exEs (fun b => b.txs) 432000 (nSlots 432000 432002) ≠ txsIn exEs 432000 432002 := by decide
+
+/-- the repaired loop on the same input -/
+example : scanSlots P exEs (fun b => b.txs) 432000 (nSlots 432000 432002) = txsIn exEs 432000 432002 := by decide
+
+/-- defect 7 (found by the harness): the pinned closure looks at static keys only, so an excluded account that is
+table-loaded is not seen -/
+theorem pinned_ignores_loaded_accounts :
+    ∃ f t, (∃ a ∈ f.exc, a ∈ t.accts) ∧ filterOutTxnPinned true (some f) t = .ok true :=
+  ⟨{ vote := some true, failed := some true, inc := [], exc := [7], req := [] }, ⟨1, 0, [1], [7], false, false⟩, by decide⟩
+
 end C19
